@@ -21,7 +21,9 @@ import (
 	"verifharness/lib"
 )
 
-var c03Facts = []string{`{"a":1}`, `{"a":2}`, `{"b":1}`, `{"a":1,"b":2}`}
+// the fifth fact differs from the first only in the JSON type of its value (the
+// string "1"): two incoming bindings of ?x that print alike must stay apart
+var c03Facts = []string{`{"a":1}`, `{"a":2}`, `{"b":1}`, `{"a":1,"b":2}`, `{"a":"1"}`}
 
 // leaf queries
 var c03Leaves = []string{
@@ -56,7 +58,8 @@ func refCode(code string, b refB) (keep bool, merged refB, err error) {
 			return false, nil, errRef // ReferenceError: x is not defined
 		}
 		f, isNum := v.(float64)
-		return isNum && f == 1, b, nil
+		str, isStr := v.(string) // JavaScript's == converts: "1"==1 holds
+		return (isNum && f == 1) || (isStr && str == "1"), b, nil
 	case "({z:1})", "({x:2})":
 		m := refB{}
 		for k, v := range b {
@@ -277,7 +280,7 @@ func c03Check(w *lib.Worker, c c03case, viaRule bool) {
 	exp, rerr := refQuery(c.Query, facts, []refB{{}})
 	w.Eval(1)
 	w.AddTrans(1)
-	cfg := fmt.Sprintf("%s split=%v facts=%04b", c.Kind, c.Split, c.Facts)
+	cfg := fmt.Sprintf("%s split=%v facts=%05b", c.Kind, c.Split, c.Facts)
 	if !viaRule {
 		qr, err := loc.Query(ctx, qtxt)
 		switch {
@@ -385,7 +388,11 @@ func c03Run(w *lib.Worker) {
 		}
 		w.AddStates(1)
 		depth2 := ti < len(c03Leaves)+3*(1+len(c03Leaves)+len(c03Leaves)*len(c03Leaves))+len(c03Leaves)
-		for mask := 0; mask < 16; mask++ {
+		for mask := 0; mask < 32; mask++ {
+			// fact sets with the fifth fact: all 16 for the small trees, two for the rest
+			if mask >= 16 && !depth2 && mask != 21 && mask != 31 {
+				continue
+			}
 			for _, split := range []bool{false, true} {
 				for _, kind := range []string{"indexed", "linear"} {
 					if kind == "linear" && mask%5 != 0 {
@@ -410,7 +417,7 @@ func init() {
 	lib.Register(&lib.Check{
 		ID:    "C03",
 		Level: "model_checking",
-		Rule: "bounded-exhaustive enumeration of query trees (12 leaves: empty, 4 patterns sharing ?x/?y, 7 code templates; and/or/or+shortCircuit with arity 0..2, not; depth 2 over 12 leaves plus depth 3 over a 4-leaf pool quick, depth 3 over a 6-leaf pool thorough) x all 16 subsets of a 4-fact universe x {local, split child/parent} x state; each evaluated by Location.Query and (depth<=2) as a rule condition through ProcessEvent, compared as multisets with a reference evaluator; " +
+		Rule: "bounded-exhaustive enumeration of query trees (12 leaves: empty, 4 patterns sharing ?x/?y, 7 code templates; and/or/or+shortCircuit with arity 0..2, not; depth 2 over 12 leaves plus depth 3 over a 4-leaf pool quick, depth 3 over a 6-leaf pool thorough) x all 16 subsets of a 4-fact universe (plus, with a fifth fact that differs from the first only in JSON type, all 32 subsets for the small trees and two for the rest) x {local, split child/parent} x state; each evaluated by Location.Query and (depth<=2) as a rule condition through ProcessEvent, compared as multisets with a reference evaluator; " +
 			"states = query trees, transitions = query evaluations; non-trivial = distinct (configuration, query, non-empty result)",
 		Assumptions: []string{
 			"core.Matches defines fact matching (C05)",
